@@ -54,6 +54,7 @@ def main(argv=None):
     ap.add_argument("--replay")
     ap.add_argument("--offset", type=int, default=0)
     ap.add_argument("--seed-tag", default=None)
+    ap.add_argument("--corpus", action="store_true")
     a = ap.parse_args(argv)
     faulthandler.enable()
     from . import core
@@ -74,6 +75,30 @@ def main(argv=None):
 
     prop = get_prop(a.prop)
     core.load_fast_ticc()
+    if a.corpus:
+        # regression corpus: replay files of violations found on earlier trees; they must not come back
+        import glob
+        rec = dict(sig=None, nontrivial=False, findings=[], probes={}, faults={}, skips={}, sample=None,
+                   events=0, sim_runs=0, harness=[], idx=-2, seed=0, mode=mode, wall=0.0)
+        for path in sorted(glob.glob(os.path.join(core.VERIF_ROOT, "corpus", f"{a.prop}-*.json"))):
+            with open(path) as f:
+                rp = json.load(f)
+            if rp.get("mode", "nojit") != mode:
+                continue
+            try:
+                found = prop.replay(rp["case"])
+            except Exception:
+                rec["harness"].append(f"corpus replay {os.path.basename(path)} crashed: {traceback.format_exc()[-600:]}")
+                continue
+            rec["probes"]["corpus_replays"] = rec["probes"].get("corpus_replays", 0) + 1
+            for f_ in found:
+                if f_["key"] == rp["key"]:
+                    f_["detail"] = f"[regression corpus {os.path.basename(path)}] " + f_["detail"]
+                    rec["findings"].append(f_)
+        with open(a.out, "w") as out:
+            out.write(dumps(rec) + "\n")
+            out.write(dumps(dict(finished=True, done=1, wall=0)) + "\n")
+        return 0
     i0, n = (int(x) for x in a.stripe.split("/"))
     t_start = time.time()
     done = 0
